@@ -23,7 +23,7 @@ Trace == ndJsonDeserialize(IOEnv.VERIF_TRACE)
 VARIABLES l,         \* next trace line
           tab,       \* Reset record of the current scenario (tables)
           lockVal, lockHist, replaced,
-          pubVal, pubHist,
+          pubVal, pubHist, pubBy,   \* pubBy: who published pubVal, and whether that was a stale instance's rollback
           objs,      \* object -> [good, imm, hashOk]
           subs,      \* submission id -> record
           acks,      \* acknowledgements delivered
@@ -36,7 +36,7 @@ VARIABLES l,         \* next trace line
           tampered,  \* storage was altered behind the log's back
           viol       \* violated formulas of this scenario: <<name, line>>
 
-vars == <<l, tab, lockVal, lockHist, replaced, pubVal, pubHist, objs, subs, acks,
+vars == <<l, tab, lockVal, lockHist, replaced, pubVal, pubHist, pubBy, objs, subs, acks,
           pool, inRound, ist, firstAck, firstSct, q, tampered, viol>>
 
 e == Trace[l]
@@ -95,13 +95,16 @@ IssuersOK(cp, o) ==
     IN \A f \in need : IssuerObj(f) \in DOMAIN o /\ o[IssuerObj(f)].hashOk
 
 \* state formulas, evaluated on the state after every event ------------------
-StateViol(lockV, pubV, o, ak, tamp) ==
+StateViol(lockV, pubV, o, ak, tamp, stale) ==
     LET F(name, ok) == IF ok THEN {} ELSE {name} IN
     (IF tamp \/ ~IsCp(pubV) \/ ~Known(pubV.tree) THEN {} ELSE
         F("C04.PubBacked", Servable(pubV.tree, pubV.n, o))
         \cup F("C04.LeavesExact", LeavesOK(pubV))
         \cup F("C04.IssuersPresent", IssuersOK(pubV, o))
-        \cup F("C02.AckStaysPublished", \A a \in ak : Covered(pubV, a)))
+        \* (the known finding F-3 has its own name: a committed checkpoint uploaded by a
+        \* stale instance after a newer one was published by another instance)
+        \cup F(IF stale THEN "C02.AckStaysPublished.StaleInstance" ELSE "C02.AckStaysPublished",
+               \A a \in ak : Covered(pubV, a)))
     \cup (IF ~IsCp(lockV) \/ ~Known(lockV.tree) THEN {} ELSE
         F("C03.AckInLock", \A a \in ak : Covered(lockV, a)))
     \cup (IF IsCp(lockV) /\ IsCp(pubV) /\ Known(lockV.tree) /\ Known(pubV.tree) /\ ~tamp
@@ -124,7 +127,7 @@ NoQ == [adm |-> {}, ev |-> {}, ret |-> {}, rot |-> FALSE, poolAt |-> <<>>, evict
 
 InitVars ==
     /\ lockVal = NoCp /\ lockHist = <<>> /\ replaced = {}
-    /\ pubVal = NoCp /\ pubHist = <<>>
+    /\ pubVal = NoCp /\ pubHist = <<>> /\ pubBy = [inst |-> "", gen |-> 0, stale |-> FALSE]
     /\ objs = <<>> /\ subs = <<>> /\ acks = {}
     /\ pool = <<>> /\ inRound = <<>> /\ ist = <<>> /\ firstAck = <<>> /\ firstSct = <<>>
     /\ q = NoQ /\ tampered = FALSE /\ viol = {}
@@ -138,7 +141,7 @@ Reset ==
     /\ (e.ev = "End" => PrintT(<<"TRACE-END", l>>))
     /\ tab' = e
     /\ lockVal' = NoCp /\ lockHist' = <<>> /\ replaced' = {}
-    /\ pubVal' = NoCp /\ pubHist' = <<>>
+    /\ pubVal' = NoCp /\ pubHist' = <<>> /\ pubBy' = [inst |-> "", gen |-> 0, stale |-> FALSE]
     /\ objs' = <<>> /\ subs' = <<>> /\ acks' = {}
     /\ pool' = <<>> /\ inRound' = <<>> /\ ist' = <<>> /\ firstAck' = <<>> /\ firstSct' = <<>>
     /\ q' = NoQ /\ tampered' = FALSE /\ viol' = {}
@@ -154,13 +157,20 @@ Upload ==
            newObjs == IF e.applied /\ ~isCp
                       THEN Put(objs, o, [good |-> SeqRange(e.good), imm |-> e.imm, hashOk |-> e.hashOk])
                       ELSE objs
+           \* a checkpoint that was committed to the lock store, is no longer the lock
+           \* store's value, and replaces a checkpoint published by another instance
+           stale == /\ isCp /\ e.applied /\ e.cp.id # pubVal.id
+                    /\ \E h \in SeqRange(lockHist) : h.id = e.cp.id
+                    /\ e.cp.id # lockVal.id
+                    /\ pubBy.inst # "" /\ <<pubBy.inst, pubBy.gen>> # <<e.inst, I(e.inst).gen>>
            av == F("C04.ImmutableStable", tampered \/ ~e.conflict)
                  \cup (IF isCp /\ e.applied THEN
                          F("C01.PublishedWasLocked", \E h \in SeqRange(lockHist) : h.id = e.cp.id)
                          \cup F("C01.Explained", Known(e.cp.tree))
                          \cup F("C11.WellSigned", WellSigned(e.inst, e.cp))
                          \cup (IF e.cp.id = pubVal.id THEN {} ELSE
-                                 F("C01.PubAppendOnly", \A h \in SeqRange(pubHist) : Extends(h, e.cp)))
+                                 F(IF stale THEN "C01.PubAppendOnly.StaleInstance" ELSE "C01.PubAppendOnly",
+                                   \A h \in SeqRange(pubHist) : Extends(h, e.cp)))
                        ELSE {})
                  \cup (IF isCp THEN
                          F("C06.LoserStops", ~I(e.inst).loser)
@@ -169,8 +179,9 @@ Upload ==
                  \cup F("C06.CreateWritesNothing", ~(I(e.inst).creatingOver /\ e.applied))
        IN /\ pubVal' = newPub
           /\ pubHist' = IF isCp /\ e.applied /\ e.cp.id # pubVal.id THEN Append(pubHist, e.cp) ELSE pubHist
+          /\ pubBy' = IF isCp /\ e.applied THEN [inst |-> e.inst, gen |-> I(e.inst).gen, stale |-> stale] ELSE pubBy
           /\ objs' = newObjs
-          /\ viol' = AddV(viol, av \cup StateViol(lockVal, newPub, newObjs, acks, tampered))
+          /\ viol' = AddV(viol, av \cup StateViol(lockVal, newPub, newObjs, acks, tampered, stale \/ (pubBy.stale /\ ~(isCp /\ e.applied))))
     /\ Unch(<<tab, lockVal, lockHist, replaced, subs, acks, pool, inRound, ist, firstAck, firstSct, q, tampered>>)
     /\ Step
 
@@ -182,14 +193,14 @@ Tamper ==
                   ELSE IF e.deleted THEN Drop(objs, o)
                   ELSE Put(objs, o, [good |-> SeqRange(e.good), imm |-> e.imm, hashOk |-> e.hashOk])
     /\ tampered' = TRUE
-    /\ Unch(<<tab, lockVal, lockHist, replaced, pubHist, subs, acks, pool, inRound, ist, firstAck, firstSct, q, viol>>)
+    /\ Unch(<<tab, lockVal, lockHist, replaced, pubHist, pubBy, subs, acks, pool, inRound, ist, firstAck, firstSct, q, viol>>)
     /\ Step
 
 Fetch ==
     /\ e.ev = "Fetch"
     /\ ist' = IF e.obj.k = "checkpoint" /\ e.ok
               THEN SetI(e.inst, [I(e.inst) EXCEPT !.lastPub = e.cp]) ELSE ist
-    /\ Unch(<<tab, lockVal, lockHist, replaced, pubVal, pubHist, objs, subs, acks, pool, inRound, firstAck, firstSct, q, tampered, viol>>)
+    /\ Unch(<<tab, lockVal, lockHist, replaced, pubVal, pubHist, pubBy, objs, subs, acks, pool, inRound, firstAck, firstSct, q, tampered, viol>>)
     /\ Step
 
 Discard ==
@@ -203,14 +214,14 @@ Discard ==
                            /\ IsPrefixT(o.id, pubVal.tree))
                        ELSE {})
        IN /\ objs' = newObjs
-          /\ viol' = AddV(viol, av \cup StateViol(lockVal, pubVal, newObjs, acks, tampered))
-    /\ Unch(<<tab, lockVal, lockHist, replaced, pubVal, pubHist, subs, acks, pool, inRound, ist, firstAck, firstSct, q, tampered>>)
+          /\ viol' = AddV(viol, av \cup StateViol(lockVal, pubVal, newObjs, acks, tampered, pubBy.stale))
+    /\ Unch(<<tab, lockVal, lockHist, replaced, pubVal, pubHist, pubBy, subs, acks, pool, inRound, ist, firstAck, firstSct, q, tampered>>)
     /\ Step
 
 LockFetch ==
     /\ e.ev = "LockFetch"
     /\ ist' = IF e.ok THEN SetI(e.inst, [I(e.inst) EXCEPT !.lastLock = e.cp]) ELSE ist
-    /\ Unch(<<tab, lockVal, lockHist, replaced, pubVal, pubHist, objs, subs, acks, pool, inRound, firstAck, firstSct, q, tampered, viol>>)
+    /\ Unch(<<tab, lockVal, lockHist, replaced, pubVal, pubHist, pubBy, objs, subs, acks, pool, inRound, firstAck, firstSct, q, tampered, viol>>)
     /\ Step
 
 LockCreate ==
@@ -224,8 +235,8 @@ LockCreate ==
                  \cup F("C06.CreateWritesNothing", ~(I(e.inst).creatingOver /\ e.applied))
        IN /\ lockVal' = newLock
           /\ lockHist' = IF e.applied THEN Append(lockHist, e.new) ELSE lockHist
-          /\ viol' = AddV(viol, av \cup StateViol(newLock, pubVal, objs, acks, tampered))
-    /\ Unch(<<tab, replaced, pubVal, pubHist, objs, subs, acks, pool, inRound, ist, firstAck, firstSct, q, tampered>>)
+          /\ viol' = AddV(viol, av \cup StateViol(newLock, pubVal, objs, acks, tampered, pubBy.stale))
+    /\ Unch(<<tab, replaced, pubVal, pubHist, pubBy, objs, subs, acks, pool, inRound, ist, firstAck, firstSct, q, tampered>>)
     /\ Step
 
 \* the leaves a replace adds on top of the committed tree
@@ -258,8 +269,8 @@ LockReplace ==
           /\ lockHist' = IF e.applied THEN Append(lockHist, e.new) ELSE lockHist
           /\ replaced' = IF e.applied THEN replaced \cup {e.old.id} ELSE replaced
           /\ ist' = IF ~e.ok THEN SetI(i, [I(i) EXCEPT !.loser = TRUE]) ELSE ist
-          /\ viol' = AddV(viol, av \cup StateViol(newLock, pubVal, objs, acks, tampered))
-    /\ Unch(<<tab, pubVal, pubHist, objs, subs, acks, pool, inRound, firstAck, firstSct, q, tampered>>)
+          /\ viol' = AddV(viol, av \cup StateViol(newLock, pubVal, objs, acks, tampered, pubBy.stale))
+    /\ Unch(<<tab, pubVal, pubHist, pubBy, objs, subs, acks, pool, inRound, firstAck, firstSct, q, tampered>>)
     /\ Step
 
 \* start-up state constructed by the harness (not an action of the log)
@@ -267,7 +278,7 @@ SetLock ==
     /\ e.ev = "SetLock"
     /\ lockVal' = e.new /\ lockHist' = <<e.new>> /\ replaced' = {}
     /\ tampered' = TRUE
-    /\ Unch(<<tab, pubVal, pubHist, objs, subs, acks, pool, inRound, ist, firstAck, firstSct, q, viol>>)
+    /\ Unch(<<tab, pubVal, pubHist, pubBy, objs, subs, acks, pool, inRound, ist, firstAck, firstSct, q, viol>>)
     /\ Step
 
 Submit ==
@@ -275,7 +286,7 @@ Submit ==
     /\ subs' = Put(subs, e.sub, [e |-> e.e, low |-> e.low, inst |-> e.inst, gen |-> I(e.inst).gen,
                                  source |-> "", out |-> "", idx |-> -1, ts |-> 0,
                                  afterStop |-> I(e.inst).stopped])
-    /\ Unch(<<tab, lockVal, lockHist, replaced, pubVal, pubHist, objs, acks, pool, inRound, ist, firstAck, firstSct, q, tampered, viol>>)
+    /\ Unch(<<tab, lockVal, lockHist, replaced, pubVal, pubHist, pubBy, objs, acks, pool, inRound, ist, firstAck, firstSct, q, tampered, viol>>)
     /\ Step
 
 SubmitReturn ==
@@ -284,7 +295,7 @@ SubmitReturn ==
     /\ pool' = IF e.source = "sequencer" THEN Put(pool, e.inst, Get(pool, e.inst, {}) \cup {e.sub}) ELSE pool
     /\ q' = [q EXCEPT !.ret = @ \cup {e.sub},
                       !.adm = IF e.source = "sequencer" THEN @ \cup {e.sub} ELSE @]
-    /\ Unch(<<tab, lockVal, lockHist, replaced, pubVal, pubHist, objs, acks, inRound, ist, firstAck, firstSct, tampered, viol>>)
+    /\ Unch(<<tab, lockVal, lockHist, replaced, pubVal, pubHist, pubBy, objs, acks, inRound, ist, firstAck, firstSct, tampered, viol>>)
     /\ Step
 
 Outcome ==
@@ -316,8 +327,8 @@ Outcome ==
                          THEN Put(firstSct, i, Put(Get(firstSct, i, <<>>), e.e, e.sctId)) ELSE firstSct
           /\ pool' = IF e.class = "evicted" THEN Put(pool, i, Get(pool, i, {}) \ {e.sub}) ELSE pool
           /\ q' = IF e.class = "evicted" THEN [q EXCEPT !.ev = @ \cup {e.sub}] ELSE q
-          /\ viol' = AddV(viol, av \cup StateViol(lockVal, pubVal, objs, newAcks, tampered))
-    /\ Unch(<<tab, lockVal, lockHist, replaced, pubVal, pubHist, objs, inRound, ist, tampered>>)
+          /\ viol' = AddV(viol, av \cup StateViol(lockVal, pubVal, objs, newAcks, tampered, pubBy.stale))
+    /\ Unch(<<tab, lockVal, lockHist, replaced, pubVal, pubHist, pubBy, objs, inRound, ist, tampered>>)
     /\ Step
 
 Point ==
@@ -330,13 +341,13 @@ Point ==
             /\ q' = [q EXCEPT !.rot = TRUE, !.evicted = Put(@, e.inst, {}),
                               !.evictedPrev = Put(@, e.inst, Get(q.evicted, e.inst, {}))]
        ELSE Unch(<<inRound, pool, q>>)
-    /\ Unch(<<tab, lockVal, lockHist, replaced, pubVal, pubHist, objs, subs, acks, ist, firstAck, firstSct, tampered, viol>>)
+    /\ Unch(<<tab, lockVal, lockHist, replaced, pubVal, pubHist, pubBy, objs, subs, acks, ist, firstAck, firstSct, tampered, viol>>)
     /\ Step
 
 RoundStart ==
     /\ e.ev = "RoundStart"
     /\ ist' = SetI(e.inst, [I(e.inst) EXCEPT !.round = e.flags])
-    /\ Unch(<<tab, lockVal, lockHist, replaced, pubVal, pubHist, objs, subs, acks, pool, inRound, firstAck, firstSct, q, tampered, viol>>)
+    /\ Unch(<<tab, lockVal, lockHist, replaced, pubVal, pubHist, pubBy, objs, subs, acks, pool, inRound, firstAck, firstSct, q, tampered, viol>>)
     /\ Step
 
 RoundEnd ==
@@ -344,7 +355,7 @@ RoundEnd ==
     /\ viol' = AddV(viol,
           F("C06.LoserStops", I(e.inst).loser => e.class = "fatal")
           \cup F("C03.RoundAfterRecovery", I(e.inst).round.mustSucceed => e.class = "none"))
-    /\ Unch(<<tab, lockVal, lockHist, replaced, pubVal, pubHist, objs, subs, acks, pool, inRound, ist, firstAck, firstSct, q, tampered>>)
+    /\ Unch(<<tab, lockVal, lockHist, replaced, pubVal, pubHist, pubBy, objs, subs, acks, pool, inRound, ist, firstAck, firstSct, q, tampered>>)
     /\ Step
 
 Crash ==
@@ -352,7 +363,7 @@ Crash ==
     /\ ist' = SetI(e.inst, [I(e.inst) EXCEPT !.up = FALSE, !.loser = FALSE, !.stopped = FALSE,
                                              !.creatingOver = FALSE, !.gen = @ + 1, !.stopPending = {}])
     /\ pool' = Put(pool, e.inst, {}) /\ inRound' = Put(inRound, e.inst, {})
-    /\ Unch(<<tab, lockVal, lockHist, replaced, pubVal, pubHist, objs, subs, acks, firstAck, firstSct, q, tampered, viol>>)
+    /\ Unch(<<tab, lockVal, lockHist, replaced, pubVal, pubHist, pubBy, objs, subs, acks, firstAck, firstSct, q, tampered, viol>>)
     /\ Step
 
 Verifies(cp, i) == cp.signer = I(i).key /\ cp.origin = I(i).name /\ cp.ext = 0
@@ -363,7 +374,7 @@ LoadStart ==
                                              !.lastLock = NoCp, !.lastPub = NoCp, !.loser = FALSE,
                                              !.stopped = FALSE, !.stopPending = {}])
     /\ pool' = Put(pool, e.inst, {}) /\ inRound' = Put(inRound, e.inst, {})
-    /\ Unch(<<tab, lockVal, lockHist, replaced, pubVal, pubHist, objs, subs, acks, firstAck, firstSct, q, tampered, viol>>)
+    /\ Unch(<<tab, lockVal, lockHist, replaced, pubVal, pubHist, pubBy, objs, subs, acks, firstAck, firstSct, q, tampered, viol>>)
     /\ Step
 
 LoadEnd ==
@@ -387,28 +398,28 @@ LoadEnd ==
                        ELSE {})
        IN viol' = AddV(viol, av)
     /\ ist' = SetI(e.inst, [I(e.inst) EXCEPT !.up = (e.class = "none")])
-    /\ Unch(<<tab, lockVal, lockHist, replaced, pubVal, pubHist, objs, subs, acks, pool, inRound, firstAck, firstSct, q, tampered>>)
+    /\ Unch(<<tab, lockVal, lockHist, replaced, pubVal, pubHist, pubBy, objs, subs, acks, pool, inRound, firstAck, firstSct, q, tampered>>)
     /\ Step
 
 CreateStart ==
     /\ e.ev = "CreateStart"
     /\ ist' = SetI(e.inst, [I(e.inst) EXCEPT !.creatingOver = IsCp(lockVal) \/ IsCp(pubVal),
                                              !.key = e.flags.key, !.name = e.flags.name])
-    /\ Unch(<<tab, lockVal, lockHist, replaced, pubVal, pubHist, objs, subs, acks, pool, inRound, firstAck, firstSct, q, tampered, viol>>)
+    /\ Unch(<<tab, lockVal, lockHist, replaced, pubVal, pubHist, pubBy, objs, subs, acks, pool, inRound, firstAck, firstSct, q, tampered, viol>>)
     /\ Step
 
 CreateEnd ==
     /\ e.ev = "CreateEnd"
     /\ viol' = AddV(viol, F("C06.NoCreateOverExisting", I(e.inst).creatingOver => e.class # "none"))
     /\ ist' = SetI(e.inst, [I(e.inst) EXCEPT !.creatingOver = FALSE])
-    /\ Unch(<<tab, lockVal, lockHist, replaced, pubVal, pubHist, objs, subs, acks, pool, inRound, firstAck, firstSct, q, tampered>>)
+    /\ Unch(<<tab, lockVal, lockHist, replaced, pubVal, pubHist, pubBy, objs, subs, acks, pool, inRound, firstAck, firstSct, q, tampered>>)
     /\ Step
 
 SequencerStopped ==
     /\ e.ev = "SequencerStopped"
     /\ ist' = SetI(e.inst, [I(e.inst) EXCEPT !.stopped = TRUE, !.stopPending = Get(pool, e.inst, {}), !.stopLine = l])
     /\ viol' = AddV(viol, F("C06.LoserStops", I(e.inst).loser => e.class = "fatal"))
-    /\ Unch(<<tab, lockVal, lockHist, replaced, pubVal, pubHist, objs, subs, acks, pool, inRound, firstAck, firstSct, q, tampered>>)
+    /\ Unch(<<tab, lockVal, lockHist, replaced, pubVal, pubHist, pubBy, objs, subs, acks, pool, inRound, firstAck, firstSct, q, tampered>>)
     /\ Step
 
 \* admission decisions since the last quiescent point (C17); evaluated only
@@ -449,7 +460,7 @@ Quiescent ==
     /\ q' = [adm |-> {}, ev |-> {}, ret |-> {}, rot |-> FALSE, poolAt |-> pool, evictedPrev |-> q.evictedPrev,
              evicted |-> [i \in DOMAIN q.evicted \cup {subs[x].inst : x \in q.ev} |->
                             Get(q.evicted, i, {}) \cup {subs[x].e : x \in {y \in q.ev : subs[y].inst = i}}]]
-    /\ Unch(<<tab, lockVal, lockHist, replaced, pubVal, pubHist, objs, subs, acks, pool, inRound, ist, firstAck, firstSct, tampered>>)
+    /\ Unch(<<tab, lockVal, lockHist, replaced, pubVal, pubHist, pubBy, objs, subs, acks, pool, inRound, ist, firstAck, firstSct, tampered>>)
     /\ Step
 
 \* the harness asks for a formula to be evaluated at a quiescent point
@@ -462,18 +473,18 @@ Check ==
                    [] e.kind = "noneAcked" -> F("C06.LoserStops", \A s \in S : subs[s].out # "ok")
                    [] OTHER -> {}
        IN viol' = AddV(viol, av)
-    /\ Unch(<<tab, lockVal, lockHist, replaced, pubVal, pubHist, objs, subs, acks, pool, inRound, ist, firstAck, firstSct, q, tampered>>)
+    /\ Unch(<<tab, lockVal, lockHist, replaced, pubVal, pubHist, pubBy, objs, subs, acks, pool, inRound, ist, firstAck, firstSct, q, tampered>>)
     /\ Step
 
 CacheRollback ==
     /\ e.ev = "CacheRollback"
     /\ firstAck' = Put(firstAck, e.inst, <<>>) /\ firstSct' = Put(firstSct, e.inst, <<>>)
-    /\ Unch(<<tab, lockVal, lockHist, replaced, pubVal, pubHist, objs, subs, acks, pool, inRound, ist, q, tampered, viol>>)
+    /\ Unch(<<tab, lockVal, lockHist, replaced, pubVal, pubHist, pubBy, objs, subs, acks, pool, inRound, ist, q, tampered, viol>>)
     /\ Step
 
 Other ==
     /\ e.ev \in {"Clock", "Note", "SequencerStart"}
-    /\ Unch(<<tab, lockVal, lockHist, replaced, pubVal, pubHist, objs, subs, acks, pool, inRound, ist, firstAck, firstSct, q, tampered, viol>>)
+    /\ Unch(<<tab, lockVal, lockHist, replaced, pubVal, pubHist, pubBy, objs, subs, acks, pool, inRound, ist, firstAck, firstSct, q, tampered, viol>>)
     /\ Step
 
 TraceNext ==
